@@ -63,7 +63,7 @@ PROPS["C07"] = {
     "plan": [
         {"name": "crash-native", "check": "c07"},
         {"name": "crash-dev-profile", "check": "c07", "variant": "dev", "scale": 0.25, "tiers": ("thorough",)},
-        {"name": "miri", "kind": "python", "module": "miristep", "tiers": ("thorough",), "optional": True, "shards": 14},
+        {"name": "miri", "kind": "python", "module": "miristep", "tiers": ("thorough",), "optional": True, "shards": 16},
         {"name": "crash-asan", "check": "c07", "variant": "asan", "scale": 0.1, "tiers": ("thorough",), "optional": True, "env": {"ASAN_OPTIONS": "detect_leaks=0:halt_on_error=1:abort_on_error=0"}},
     ],
 }
